@@ -35,6 +35,25 @@ func foldedInt(v ssa.Value) (int64, bool) {
 	if cv, ok := v.(*ssa.Convert); ok {
 		return foldedInt(cv.X)
 	}
+	// go/ssa does not fold arithmetic over local "constants" (x := int64(C1+C2); C3/x)
+	if b, ok := v.(*ssa.BinOp); ok {
+		x, o1 := foldedInt(b.X)
+		y, o2 := foldedInt(b.Y)
+		if o1 && o2 {
+			switch b.Op {
+			case token.ADD:
+				return x + y, true
+			case token.SUB:
+				return x - y, true
+			case token.MUL:
+				return x * y, true
+			case token.QUO:
+				if y != 0 {
+					return x / y, true
+				}
+			}
+		}
+	}
 	return 0, false
 }
 
